@@ -11,6 +11,7 @@ CONSTANTS
   MaxTextLines = 1
   MaxLines = 1000
   MaxDepth = 2
+  SimTextLines = 3
   Alphabet = {}
 INVARIANTS EmitInv
 CHECK_DEADLOCK FALSE
